@@ -69,4 +69,19 @@ with open(os.path.join(VERIF, "seeded", "README.md"), "w") as f:
     f.write("| seeded change | property | caught by (property: check name) |\n|---|---|---|\n")
     for row in table:
         f.write("| %s | %s | %s |\n" % row)
+    f.write("""
+Notes
+* `R2Cxx` ... `R6Cxx` are later waves of independent sub-agent changes, all written against the repaired code: each agent was told
+  what earlier waves had tried for its property and asked for a change of a different character (R3: compiled-build-only and
+  two-cooperating-site changes; R4: two-site changes and legal-but-unusual API use; R5/R6: legal-but-unusual API use and
+  faults at one specific point of a history).
+* `C08-m1` / `C08-m2` of the first C08 sub-agent are not kept: after the fixes b5054cf (failing lazy Future no longer escapes) and
+  046c437 (scheduled batches are cleared when the outermost wait ends) their demonstrations pass on the mutated tree, i.e. they no longer
+  break the property; `C08b-*` and `R2C08-*` were written against the repaired code.
+* `ported: true` in a meta.json means the sub-agent's patch was re-based by hand onto the repaired /repo HEAD (`patch.orig.diff` is the
+  patch as delivered); all patches in this directory apply to the current HEAD.
+* Every row was produced by `tools/sweep.py` (apply, run the quick check(s) with the default seed, restore the tree). A change whose
+  author was assigned property X but which breaks what property Y states is listed with the checks that report it.
+* `NOT CAUGHT` rows are deliberate and explained in DESIGN.md section 10, as are the checks that had to be strengthened first.
+""")
 print("assembled %d entries" % len(table))
